@@ -9,6 +9,7 @@ FamC == Family({<<2, 1>>}, SingleMSeqs(2), {0, 1, 2}) \cup Family({<<1, 1>>}, MS
 FamM3 == Family({<<2, 1>>, <<1, 1, 1>>}, MSeqs(3), {0, 1, 3})
 FamNF == Family({<<2, 1>>, <<1, 1, 1>>, <<2, 2>>, <<3>>, <<1>>, <<1, 1>>}, SingleMSeqs(2), {0, 1, 2})
          \cup Family({<<2, 1>>, <<1, 1, 1>>}, SingleMSeqs(3), {0, 1, 3})
+FamP == Family({<<2, 1>>, <<1, 1, 1>>, <<2, 2>>}, MSeqs(2), {1, 2}) \cup Family({<<2, 1>>, <<1, 1, 1>>}, MSeqs(3), {1, 3})
 FiltA == FiltNone \cup FiltSingles \cup FiltDefault
 FiltB == FiltNone \cup FiltDefault
 FiltAll2 == FiltNone \cup FiltSingles \cup FiltPairs
